@@ -326,7 +326,9 @@ func applyHTTP(mux *http.ServeMux, o op) result {
 	req.Header.Set("Content-Type", "application/json")
 	req.Header.Set("Sec-X-Tailscale-No-Browsers", "setec")
 	rec := httptest.NewRecorder()
-	mux.ServeHTTP(rec, req)
+	// the moments at which the handler hands its reply to the transport are scheduling points: whatever
+	// another request does in between must not show up in this reply
+	mux.ServeHTTP(&seamWriter{rec}, req)
 	switch rec.Code {
 	case 200:
 	case 404:
@@ -361,6 +363,18 @@ func applyHTTP(mux *http.ServeMux, o op) result {
 		return result{Text: strings.Join(sb, ";")}
 	}
 	return result{}
+}
+
+type seamWriter struct{ rec *httptest.ResponseRecorder }
+
+func (w *seamWriter) Header() http.Header { return w.rec.Header() }
+func (w *seamWriter) WriteHeader(code int) {
+	sched.Seam("http.writeheader")
+	w.rec.WriteHeader(code)
+}
+func (w *seamWriter) Write(b []byte) (int, error) {
+	sched.Seam("http.write")
+	return w.rec.Write(b)
 }
 
 var alphabet = []op{
